@@ -58,7 +58,42 @@ static int check_decodes(const u8* out, size_t outLen, const u8* src, size_t con
     return 0;
 }
 
+/* --api 2: the decoder's output ring under irregular block sizes.  Window 1 KiB, frame = two full blocks, a short block of c bytes, then a block with an early
+ * match that reaches back almost a full window and L Huffman-coded literals, each piece flushed: the ring (window + 2 blocks + 64) restarts c bytes past its
+ * nominal turn.  The frame is decoded by the streaming decoder under four slicings (and with a stable output buffer) and must equal the one-shot result. */
+static void body_ring(void) {
+    static const int CS[] = {1, 2, 3, 5, 8, 13, 21, 34, 55, 64, 90, 150, 230, 400, 700, 1023}; static const int DS[] = {3, 500, 940, 1000, 1020, 1023, 1024}; static const int LS[] = {40, 100, 400, 800};
+    int c = CS[vx_choose(16)], d = DS[vx_choose(7)], L = LS[vx_choose(4)], lv = vx_choose(3), pre = vx_choose(3);
+    static const int LV[] = {1, 5, 19};
+    vx_label("ring c=%d dist=%d lits=%d level=%d preblocks=%d", c, d, L, LV[lv], 2 + pre);
+    u8* p = g_src; size_t n = 0; uint32_t sd = 5;
+    fill_text(p, (size_t)(2 + pre) * 1024, 17); n = (size_t)(2 + pre) * 1024;
+    for (int k = 0; k < c; k++) { sd = sd * 1103515245u + 12345u; p[n++] = (u8)('A' + (sd >> 16) % 20); }
+    for (int k = 0; k < 96; k++) { p[n] = p[n - (size_t)d]; n++; }
+    for (int k = 0; k < L; k++) { sd = sd * 1103515245u + 12345u; unsigned v = (sd >> 16) % 40; p[n++] = (u8)('a' + v * v / 40); }
+    ZSTD_CCtx* cc = ZSTD_createCCtx(); ZSTD_CCtx_setParameter(cc, ZSTD_c_compressionLevel, LV[lv]); ZSTD_CCtx_setParameter(cc, ZSTD_c_windowLog, 10); ZSTD_CCtx_setParameter(cc, ZSTD_c_checksumFlag, 1);
+    ZSTD_outBuffer out = { g_dst, 1u << 20, 0 }; size_t cuts[8]; int nc = 0; for (int b = 1; b <= 2 + pre; b++) cuts[nc++] = (size_t)b * 1024; cuts[nc++] = (size_t)(2 + pre) * 1024 + (size_t)c; cuts[nc++] = n;
+    size_t pos = 0; for (int k = 0; k < nc; k++) { ZSTD_inBuffer in = { p, cuts[k], pos }; size_t r; do { r = ZSTD_compressStream2(cc, &out, &in, k == nc - 1 ? ZSTD_e_end : ZSTD_e_flush); } while (r && !ZSTD_isError(r)); if (ZSTD_isError(r)) { vx_fail("compressStream2: %s", ZSTD_getErrorName(r)); ZSTD_freeCCtx(cc); return; } pos = in.pos; }
+    ZSTD_freeCCtx(cc);
+    {   size_t r1 = ZSTD_decompress(g_out, 1u << 20, g_dst, out.pos); if (ZSTD_isError(r1) || r1 != n || memcmp(g_out, p, n)) { vx_fail("one-shot decode of the streamed frame fails or differs"); return; } }
+    static const size_t SL[][2] = {{1u << 20, 1u << 20}, {1, 1}, {7, 129}, {300, 1024}, {1u << 20, 1u << 20}};
+    for (int v = 0; v < 5 && !vx_failed; v++) {
+        ZSTD_DCtx* dc = ZSTD_createDCtx(); if (v == 4) ZSTD_DCtx_setParameter(dc, ZSTD_d_stableOutBuffer, 1);
+        memset(g_out, 0x5A, n + 64); size_t ip = 0, op = 0, r = 1; long it = 0;
+        while (!ZSTD_isError(r) && it++ < 4000000 && (ip < out.pos || r != 0)) {
+            size_t ie = ip + SL[v][0] > out.pos ? out.pos : ip + SL[v][0], oe = v == 4 ? n + 64 : (op + SL[v][1] > n + 64 ? n + 64 : op + SL[v][1]);
+            ZSTD_inBuffer in = { g_dst, ie, ip }; ZSTD_outBuffer o = { g_out, oe, op }; size_t before = ip + op; r = ZSTD_decompressStream(dc, &o, &in); ip = in.pos; op = o.pos;
+            if (r != 0 && ip + op == before && ip == out.pos) break;
+        }
+        ZSTD_freeDCtx(dc);
+        if (ZSTD_isError(r)) vx_fail("streaming decode (slicing %d) of a valid frame fails: %s", v, ZSTD_getErrorName(r));
+        else if (op != n || memcmp(g_out, p, n)) { size_t k = 0; while (k < n && k < op && g_out[k] == p[k]) k++; vx_fail("streaming decode (slicing %d) differs from the one-shot result (%zu of %zu bytes, first difference at byte %zu)", v, op, n, k); }
+    }
+    vx_obs_u64(vx_hash(g_dst, out.pos)); vx_nontrivial(); vx_stat_add("transitions", 5);
+}
+
 static void body(void) {
+    if (g_api == 2) { body_ring(); return; }
     int ncfg = (int)vx_opt_int("--ncfg", NCFG); if (ncfg > NCFG) ncfg = NCFG;
     int ci = vx_choose(ncfg); const cfg_t* cf = &CFG[ci];
     int kind = vx_choose(3);
